@@ -24,6 +24,8 @@ Display(v) == /\ n < MaxEvents /\ n' = n + 1 /\ Take(Ev("Display", "", FALSE, v)
               /\ UNCHANGED <<hookAtEnter, delivered, entered>>
 DisplayC(v) == /\ n < MaxEvents /\ n' = n + 1 /\ Take(Ev("DisplayC", "", FALSE, v))
                /\ UNCHANGED <<hookAtEnter, delivered, entered>>
+Relist == /\ n < MaxEvents /\ n' = n + 1 /\ Take(Ev("Relist", "", FALSE, ""))
+          /\ UNCHANGED <<hookAtEnter, delivered, entered>>
 Raise == /\ n < MaxEvents /\ n' = n + 1 /\ Take(Ev("Raise", "", FALSE, ""))
          /\ UNCHANGED <<hookAtEnter, delivered, entered>>
 \* always enabled while a block is open (so that every program can finish)
@@ -31,7 +33,7 @@ Exit == /\ st.stack # <<>> /\ Take(Ev("Exit", "", FALSE, ""))
         /\ delivered' = [delivered EXCEPT ![st.stack[Len(st.stack)].t] = @ + 1]
         /\ UNCHANGED <<n, hookAtEnter, entered>>
 Next == (\E t \in Tags, g \in BOOLEAN : Enter(t, g)) \/ (\E v \in DispVals : Display(v)) \/ (\E v \in CaughtVals : DisplayC(v))
-        \/ Raise \/ Exit
+        \/ Raise \/ Exit \/ Relist
 Spec == Init /\ [][Next]_vars
 
 \* C17 at design level
